@@ -93,9 +93,13 @@ class FileBasedTapeCassette(TapeCassette):
             recording_id = file_name.split('.')[0]
             recording = self.get_recording(recording_id)
 
+            # The file name prefix is not enough, another category may start with the same text
+            if self.extract_recording_category(recording.id) != category:
+                continue
+
             if metadata:
                 # Filter based on metadata if provided
-                if not all(metadata[key] == recording.get_metadata()[key] for key in metadata.keys()):
+                if not TapeCassette.match_against_recorded_metadata(metadata, recording.get_metadata()):
                     continue
 
             ids.append(recording.id)
